@@ -74,7 +74,8 @@ NeverLargerOK(readLen, writtenLen, force) == force \/ writtenLen <= readLen
 -----------------------------------------------------------------------------
 \* C15: files.  reach = how the path arguments reach a file; class = how it behaves
 Reach == {"named", "dir_py", "dir_pyw", "dir_other", "outside"}
-Class == {"shrinks", "grows", "equal", "empty", "invalid", "undecodable", "unreadable", "readonly"}
+Class == {"shrinks", "legacy", "grows", "equal", "empty", "invalid", "undecodable", "unreadable", "readonly"}
+\* legacy: a module with a non-UTF-8 coding declaration and non-ASCII text; it shrinks, and the minified module is written as UTF-8
 IsTarget(r) == r \in {"named", "dir_py", "dir_pyw"}
 Fails(c)    == c \in {"invalid", "undecodable", "unreadable"}
 \* the content a target may end with: its original bytes or the complete minified module
